@@ -719,6 +719,8 @@ class LSMTree(Entity):
             self._memtable.set_clock(self._clock)
         self._immutable_memtables.clear()
         self._wal_pending.clear()
+        # A compaction interrupted by the crash is gone with its process
+        self._compaction_in_progress = False
 
         # Crash WAL — discard unsynced entries
         wal_lost = 0
